@@ -1,5 +1,5 @@
-(* C08 layer 2 (part 3) — Vario round trip (symmetric calculations, regular lags, directions not defined on a grid,
-   every result defined); any number of variables, directions and lags *)
+(* C08 layer 2 (part 3) — Vario round trip (any calculation type, symmetric or not, undefined results allowed; regular
+   lags, directions not defined on a grid); any number of variables, directions and lags *)
 From Coq Require Import Ascii String.
 From Coq Require Import List ZArith QArith Bool Lia.
 From Gst Require Import C08.Codec C08.Proofs_codec C08.Model C08.Proofs_basic C08.Model_vario.
@@ -19,27 +19,23 @@ Proof.
   intros ->. rewrite map_as_flat_map. apply reads_rrepZ; auto. intros x _. apply reads_str.
 Qed.
 
-Definition defined (d : dbl) : Prop := wf_dbl d /\ d <> None.
-Definition wf_triple (t : triple) : Prop := let '(sw, hh, gg) := t in defined sw /\ defined hh /\ defined gg.
-
-Lemma nz_defined d : d <> None -> nz d = d.
-Proof. destruct d; simpl; congruence. Qed.
+Definition wf_triple (t : triple) : Prop := let '(sw, hh, gg) := t in wf_dbl sw /\ wf_dbl hh /\ wf_dbl gg.
 
 Lemma reads_triple t : wf_triple t -> reads rd_triple (ser_triple t) t.
 Proof.
-  destruct t as [[sw hh] gg]. simpl. intros ((H1 & N1) & (H2 & N2) & (H3 & N3)).
-  unfold rd_triple. rewrite !nz_defined by auto. rd. reflexivity.
+  destruct t as [[sw hh] gg]. simpl. intros (H1 & H2 & H3).
+  unfold rd_triple. rd. reflexivity.
 Qed.
 
-Definition wf_vdir (ndim nvar : Z) (d : vdir) : Prop :=
+Definition wf_vdir (ndim nvar calcul : Z) (d : vdir) : Prop :=
   vd_regular d = true /\ vd_grincr d = [] /\
   wf_dbl (vd_tolcode d) /\ wf_dbl (vd_dpas d) /\ wf_dbl (vd_toldist d) /\ wf_dbl (vd_tolang d) /\
   cap90 (vd_tolang d) = vd_tolang d /\
   lenZ (vd_codir d) = ndim /\ Forall wf_dbl (vd_codir d) /\ vd_codir d <> [] /\
-  lenZ (vd_res d) = vd_npas d * (nvar * (nvar + 1) / 2) /\ Forall wf_triple (vd_res d).
+  lenZ (vd_res d) = lag_total calcul (vd_npas d) * (nvar * (nvar + 1) / 2) /\ Forall wf_triple (vd_res d).
 
-Lemma reads_vdir ndim nvar ta0 d :
-  wf_vdir ndim nvar d -> reads (rd_vdir ndim nvar 2 ta0) (ser_vdir d) (d, vd_tolang d).
+Lemma reads_vdir ndim nvar calcul ta0 d :
+  wf_vdir ndim nvar calcul d -> reads (rd_vdir ndim nvar 3 calcul ta0) (ser_vdir d) (d, vd_tolang d).
 Proof.
   destruct d as [reg npas oc tc dp td gi ta cd res]. unfold wf_vdir.
   cbn [vd_regular vd_npas vd_optcode vd_tolcode vd_dpas vd_toldist vd_grincr vd_tolang vd_codir vd_res].
@@ -58,8 +54,8 @@ Proof.
   apply reads_ret_eq. rewrite Hcap. reflexivity.
 Qed.
 
-Lemma reads_vdirs ndim nvar ds : forall ta0,
-  Forall (wf_vdir ndim nvar) ds -> reads (rd_vdirs (length ds) ndim nvar 2 ta0) (flat_map ser_vdir ds) ds.
+Lemma reads_vdirs ndim nvar calcul ds : forall ta0,
+  Forall (wf_vdir ndim nvar calcul) ds -> reads (rd_vdirs (length ds) ndim nvar 3 calcul ta0) (flat_map ser_vdir ds) ds.
 Proof.
   induction ds as [|d ds IH]; intros ta0 H; cbn [flat_map rd_vdirs length].
   - apply reads_ret.
@@ -68,19 +64,19 @@ Proof.
 Qed.
 
 Definition wf_Vario (o : vario) : Prop :=
-  vr_asym o = false /\ wf_dbl (vr_scale o) /\
+  wf_dbl (vr_scale o) /\
   vr_nvar o = lenZ (vr_names o) /\
   lenZ (vr_vars o) = vr_nvar o /\ Forall (fun row => lenZ row = vr_nvar o /\ Forall wf_dbl row) (vr_vars o) /\
-  Forall (wf_vdir (vr_ndim o) (vr_nvar o)) (vr_dirs o).
+  Forall (wf_vdir (vr_ndim o) (vr_nvar o) (vr_calcul o)) (vr_dirs o).
 
 Lemma Vario_reads o : wf_Vario o -> reads deser_Vario (ser_Vario o) o.
 Proof.
-  destruct o as [ndim nvar scale asym names vars dirs]. unfold wf_Vario.
-  cbn [vr_ndim vr_nvar vr_scale vr_asym vr_names vr_vars vr_dirs].
-  intros (-> & Hs & -> & Hvl & Hvars & Hdirs).
-  unfold deser_Vario, ser_Vario. cbn [vr_ndim vr_nvar vr_scale vr_asym vr_names vr_vars vr_dirs].
+  destruct o as [ndim nvar scale calcul names vars dirs]. unfold wf_Vario.
+  cbn [vr_ndim vr_nvar vr_scale vr_calcul vr_names vr_vars vr_dirs].
+  intros (Hs & -> & Hvl & Hvars & Hdirs).
+  unfold deser_Vario, ser_Vario. cbn [vr_ndim vr_nvar vr_scale vr_calcul vr_names vr_vars vr_dirs].
   rewrite <- !app_comm_cons, app_nil_l. rd.
-  cbn [Z.eqb Pos.eqb z2b negb].
+  cbn [Z.leb Z.compare Pos.compare Pos.compare_cont Z.eqb Pos.eqb z2b negb].
   replace (Z.to_nat (lenZ names)) with (length names) by (unfold lenZ; rewrite Nat2Z.id; reflexivity).
   rewrite map_nth_seq.
   eapply reads_bind; [apply reads_str_list; reflexivity|].
@@ -88,6 +84,7 @@ Proof.
   eapply reads_bind.
   { apply reads_rrepZ; auto. intros row Hrow. rewrite Forall_forall in Hvars. destruct (Hvars _ Hrow) as [Hl Hw].
     apply reads_com_r. apply reads_dbl_list; auto. }
+  cbn [Z.leb Z.compare Pos.compare Pos.compare_cont]. rd. rewrite app_nil_l.
   rewrite <- (app_nil_r (flat_map _ dirs)). eapply reads_bind.
   { replace (Z.to_nat (lenZ dirs)) with (length dirs) by (unfold lenZ; rewrite Nat2Z.id; reflexivity).
     apply reads_vdirs; auto. }
